@@ -245,7 +245,8 @@ def check_C16(run):
     run.cov["rule"] = ("random command prefix (positions, move lists, searches, option changes, perft runs) then `ucinewgame` + `position X` "
                        "+ reports (print, history, eval, go perft 2, go split 1, go depth 3) compared with a freshly started engine given "
                        "the same option values and the same `position X` + reports; without ucinewgame: print/history/eval only; both "
-                       "also compared with the model; non-trivial = prefix contains a search")
+                       "also compared with the model; plus deep searches (depth 5-6, Hash default/1/3 MB) that fill the table, then ucinewgame and the same or "
+                       "a neighbouring search, against a fresh engine; non-trivial = prefix contains a search")
     rel = vlib.build_engine("release")
     legal_cache = {}
     move_cache = {}
@@ -307,11 +308,24 @@ def check_C16(run):
             ["isready"] + ["isready"] + [posl] + reports + ["quit"]
         jobs.append((full, fresh, newgame, any(l.startswith("go depth") or l.startswith("go nodes") for l in prefix)))
 
+    # deep searches that fill the whole table (every slot region, the last ones too), then ucinewgame and the same or a nearby search
+    deep = [("position startpos", 6), ("position fen r3k2r/p1ppqpb1/bn2pnp1/3PN3/1p2P3/2N2Q1p/PPPBBPPP/R3K2R w KQkq - 0 1", 5),
+            ("position startpos moves e2e4 e7e5 g1f3", 6), ("position fen r1bqkbnr/pppp1ppp/2n5/4p3/2B1P3/5N2/PPPP1PPP/RNBQK2R b KQkq - 3 3", 6)]
+    for k, (posl, d) in enumerate(deep if th else deep[:3]):
+        hashv = (None, 1, 3, 2)[k]
+        opts = [f"setoption name Hash value {hashv}"] if hashv else []
+        second = posl if k != 2 else "position startpos moves e2e4 e7e5"
+        reports = [f"go depth {d}", "print", "history"]
+        full = opts + ["isready", posl, f"go depth {d}", "isready", "ucinewgame", second] + reports + ["quit"]
+        fresh = opts + ["isready", "isready", second] + reports + ["quit"]
+        jobs.append((full, fresh, True, True))
+
     def one(s):
-        return run_engine(rel, s, timeout=60)
+        return run_engine(rel, s, timeout=120)
     r1 = vlib.par_map(one, [j[0] for j in jobs])
     r2 = vlib.par_map(one, [j[1] for j in jobs])
-    m1 = vlib.run_model_par(["session\twrapping\t" + "|".join(j[0]) for j in jobs])
+    ndeep = len(deep if th else deep[:3])
+    m1 = vlib.run_model_par(["session\twrapping\t" + "|".join(j[0]) for j in jobs[:-ndeep]]) + ["SKIP (deep search: implementation vs fresh process only)"] * ndeep
     nv = 0
     for (full, fresh, newgame, searched), a, b, m in zip(jobs, r1, r2, m1):
         if m.startswith("PANIC"):
